@@ -74,3 +74,27 @@ func ratReduce(rat *big.Rat) (result slip.Object) {
 	}
 	return
 }
+
+// bothRational returns true if both numbers are rational and at least one of
+// them is a ratio, a quotient of the two has to be formed exactly then.
+func bothRational(x, y slip.Object) bool {
+	ratio := false
+	for _, v := range []slip.Object{x, y} {
+		switch v.(type) {
+		case slip.Fixnum, *slip.Bignum:
+		case *slip.Ratio:
+			ratio = true
+		default:
+			return false
+		}
+	}
+	return ratio
+}
+
+// canonical returns an integer for a ratio with a denominator of one.
+func canonical(v slip.Object) slip.Object {
+	if r, ok := v.(*slip.Ratio); ok {
+		return ratReduce((*big.Rat)(r))
+	}
+	return v
+}
